@@ -166,17 +166,19 @@ pub fn run(o: &DetectOpts) -> serde_json::Value {
             }
             cases.push(c);
         }
-        // large payloads: both sides of the lazy limits
+        // large payloads: both sides of the lazy limits.  Variants (k mod 4):
+        //  0 clean ASCII, default threshold            1 ASCII + high byte after 500,000, threshold 0 (fall-back paths)
+        //  2 corpus text repeated + high byte early     3 ASCII + high byte after 500,000, default threshold
         for k in 0..o.big {
             let base = &corpus.files[rng.below(corpus.files.len())].bytes;
-            let target = match k % 4 {
-                0 => 1_000_000 + rng.below(3),
+            let target = match (k / 4) % 4 {
+                0 => 1_000_001 + rng.below(3),
                 1 => 1_000_001 + rng.below(200_000),
                 2 => 999_990 + rng.below(10),
                 _ => 1_300_000,
             };
             let mut b = Vec::with_capacity(target);
-            if k % 3 == 0 {
+            if k % 4 != 2 {
                 b = ascii_text(&mut rng, target);
             } else {
                 while b.len() < target {
@@ -187,22 +189,31 @@ pub fn run(o: &DetectOpts) -> serde_json::Value {
                 }
                 b.truncate(target);
             }
-            if k % 2 == 1 {
-                let p = match rng.below(3) {
-                    0 => rng.below(500_000),
-                    1 => 500_000 + rng.below(b.len() - 500_000),
-                    _ => b.len() - 1,
-                };
-                b[p] = 0xe9;
+            match k % 4 {
+                1 | 3 => {
+                    let p = 500_000 + rng.below(b.len() - 500_000);
+                    b[p] = if rng.chance(1, 2) { 0xe9 } else { 0x98 };
+                }
+                2 => {
+                    let p = rng.below(500_000);
+                    b[p] = 0xe9;
+                }
+                _ => {}
             }
             let mut s = default_settings();
             // keep multi-MB cases affordable for the pipe protocol: a handful of encodings
             s.include_encodings = vec!["ascii".into(), "utf-8".into(), "windows-1252".into(), "koi8-r".into(), "big5".into()];
+            if k % 4 == 1 {
+                s.threshold = ordered_float::OrderedFloat(0.0);
+                if rng.chance(1, 2) {
+                    s.include_encodings = vec!["ascii".into(), "windows-1251".into()];
+                }
+            }
             if k % 2 == 0 {
                 s.steps = rng.range(1, 12);
                 s.chunk_size = rng.range(16, 2048);
             }
-            cases.push(Case { kind: "large".into(), bytes: b, settings: s });
+            cases.push(Case { kind: format!("large-v{}", k % 4), bytes: b, settings: s });
         }
     }
 
